@@ -99,7 +99,7 @@ func C10(c *Ctx) {
 	r.Explanation = "(A1) bank movements naming the stream module account and writes/deletes of the stream section are reachable only from the stream MsgServer (and genesis import for the section); " +
 		"(A3) pairing with one origin: top-up sends NewCoins(d) from the sender to the module before storing Deposit := Deposit.Add(d) on every success path; a claim pays the fee collector and the receiver the two results of the fee-split function applied to the claim total, stores Deposit := the remaining-deposit result of the claim-amount function applied to the stored deposit, the payouts being skipped only on amount == 0; cancel settles first, refunds the reloaded remaining deposit to the sender and deletes the stream on every success path; " +
 		"(affine split) both pure split functions return, on every return edge, two coins whose sum is syntactically the input (X−Y with Y, or X with a zero coin); (A5/A2) the stream account is a blocked recipient and stream creation rejects blocked receivers; genesis import returns only when balances equal Σ deposits; (A8) no bank error is dropped. Σ-over-streams and rounding are not decided."
-	r.Rules = []string{"A1.escrow-moves", "A1.stream-writers", "A3.topup-pairing", "A3.claim-pairing", "A3.cancel-pairing", "AFF.split", "A5.blocked-addresses", "A2.blocked-receiver", "A3.no-stale-writeback", "A2.genesis-balance", "A8.bank-errors", "A3.lost-update"}
+	r.Rules = []string{"A1.escrow-moves", "A1.stream-writers", "A3.topup-pairing", "A3.claim-pairing", "A3.cancel-pairing", "AFF.split", "A5.blocked-addresses", "A2.blocked-receiver", "A3.no-stale-writeback", "A2.genesis-balance", "A8.bank-errors", "A3.lost-update", "A3.stale-element-pointer", "A7.fee-formula"}
 	lostUpdateControl(c)
 	r.Floor("functions of stream scanned for dropped updates to record copies", lostUpdates(c, "stream"), 15)
 	r.Trusted = []string{"bank transfers move exactly the given coins or fail", "bank refuses transfers to blocked addresses", "sdk.Coin Add/Sub arithmetic"}
@@ -120,6 +120,7 @@ func C10(c *Ctx) {
 	claimPairing(c)
 	cancelPairing(c)
 	affineSplit(c, "x/stream/types.CalculateValidatorFee", 1)
+	feeFormula(c)
 	affineSplit(c, "x/stream/types.CalculateAmountToClaim", 3)
 	blockedAddresses(c, []string{"stream"})
 	// create rejects blocked receivers
@@ -701,6 +702,65 @@ func affineSplit(c *Ctx, name string, inputIdx int) {
 		}
 		r.Require(ok, "AFF.split", fmt.Sprintf("%s|edge%d", name, i), w.Pos(f.Pos()), "the two returned coins add up to the input coin (X−Y with Y, or X with a zero coin)", fmt.Sprintf("returns (%s, %s) for input %s", a, b, in))
 	}
+}
+
+// feeFormula is rule A7.fee-formula: the validator fee of a release is floor(released x rate) with the rate as governance set
+// it. In the fee-split function, wherever the fee amount is computed from both the released amount and the rate, the rate
+// enters that computation as the parameter itself: an expression over the rate alone (the rate scaled and truncated to basis
+// points, rounded to some precision, converted to an integer) would replace the stored parameter by another number for
+// every rate it does not represent exactly, while Params.Validate goes on accepting any rate in [0,1].
+func feeFormula(c *Ctx) {
+	w, r := c.W, c.R
+	f := w.LookupFunc("x/stream/types.CalculateValidatorFee")
+	if f == nil || len(f.Params) < 2 {
+		r.Undecided("A7.fee-formula", "func", "", "fee-split function exists", "not found")
+		return
+	}
+	rate, amount := f.Params[0].Name(), f.Params[1].Name()
+	has := func(e *ir.Expr, name string) bool {
+		return e.Any(func(z *ir.Expr) bool { return z.Op == "param" && z.Name == name })
+	}
+	n := 0
+	for _, ret := range ir.Returns(f) {
+		if len(ret.Results) != 2 {
+			continue
+		}
+		fee := w.Expand(w.ExprOf(ret.Results[1]), 5)
+		for _, alt := range fee.Alts() {
+			if !has(alt, rate) {
+				continue // the zero fee of the no-fee route
+			}
+			n++
+			// the smallest sub-expression that holds both the rate and the amount
+			var meet *ir.Expr
+			var visit func(e *ir.Expr)
+			visit = func(e *ir.Expr) {
+				if !has(e, rate) || !has(e, amount) {
+					return
+				}
+				meet = e
+				for _, a := range e.Args {
+					if has(a, rate) && has(a, amount) {
+						visit(a)
+						return
+					}
+				}
+			}
+			visit(alt)
+			bad := ""
+			if meet == nil {
+				bad = "the fee does not depend on the released amount: " + alt.String()
+			} else {
+				for _, a := range meet.Args {
+					if has(a, rate) && !has(a, amount) && !(a.Op == "param" && a.Name == rate) {
+						bad = "the rate is first turned into " + a.String() + " and only then applied to the amount"
+					}
+				}
+			}
+			r.Require(bad == "", "A7.fee-formula", fmt.Sprintf("%s|alt%d", fn(f), n), w.Pos(f.Pos()), "the fee is computed from the released amount and the rate parameter itself (not from a rounded, truncated or rescaled stand-in for the rate)", bad)
+		}
+	}
+	r.Floor("fee computations in the fee-split function", n, 1)
 }
 
 // ---------------------------------------------------------------------------------------
